@@ -151,6 +151,11 @@ def run(case, ctx, rng):
             ctx.eq('ctr:dec(enc)==M', call(lambda: new().dec(C)), M, **det)
             ctx.eq('ctr:dec(enc)==M', call(lambda: obj.dec(C)), M, same_object=True, **det)
             ctx.eq('ctr:enc==spec', call(lambda: obj.enc(M)), want, second_call=True, **det)
+            # the counter is re-configured on the live object: the next message starts from the new counter block
+            n2 = rng.randbytes(n - h); c2 = rng.getrandbits(8 * h)
+            if hasattr(obj.counter, 'setup'):
+                call(obj.counter.setup, n2, c2.to_bytes(h, 'big'))
+                ctx.eq('ctr:enc==spec', call(lambda: obj.enc(M)), spec_ctr(E, n2, c2, M, n), after_counter_setup=True, **det)
     elif k == 'siblings':
         from vmon.core import siblings
         import crysp.padding as PD
